@@ -265,8 +265,12 @@ theorem deliverClaim_cases (s : State) (m : MsgClaim) (e : ClaimEnv) :
     ((deliverClaim s m e).err = none ∧
       (deliverClaim s m e).state = { s with claims := s.claims.set m.key (storedClaim s.height m e) } ∧
       (deliverClaim s m e).events = [.accepted m.key (storedClaim s.height m e)] ∧
-      e.vb = none ∧ e.anteOk = true ∧ validateClaim s.height m e = none ∧ (m.key.et = 1 ∨ m.key.et = 2)) := by
+      e.dup = false ∧ e.vb = none ∧ e.anteOk = true ∧ validateClaim s.height m e = none ∧ (m.key.et = 1 ∨ m.key.et = 2)) := by
   unfold deliverClaim
+  cases hd : e.dup with
+  | true => simp
+  | false =>
+  simp only [Bool.false_eq_true, if_false]
   cases hv : e.vb with
   | some c => simp
   | none =>
@@ -282,14 +286,14 @@ theorem deliverClaim_cases (s : State) (m : MsgClaim) (e : ClaimEnv) :
         · simp [het]
         · simp only [if_neg het]
           right
-          refine ⟨trivial, trivial, trivial, trivial, trivial, trivial, ?_⟩
+          refine ⟨trivial, trivial, trivial, trivial, trivial, trivial, trivial, ?_⟩
           omega
 
 /-- The four outcomes of a proof transaction. -/
 theorem deliverProof_cases (fixed : Bool) (s : State) (m : MsgProof) (e : ProofEnv) :
     ((deliverProof fixed s m e).state = s ∧ (deliverProof fixed s m e).events = [] ∧
       (deliverProof fixed s m e).err ≠ none) ∨
-    (∃ c, s.claims.get m.key = some c ∧ e.vb = none ∧ e.anteOk = true ∧ e.levelOk = true ∧ e.rootMatch = true ∧
+    (∃ c, s.claims.get m.key = some c ∧ e.dup = false ∧ e.vb = none ∧ e.anteOk = true ∧ e.levelOk = true ∧ e.rootMatch = true ∧
       e.sessCtxOk = true ∧ e.indexAvail = true ∧ e.indexOk = true ∧
       ((e.merkle = .replay ∧ (deliverProof fixed s m e).err = some Code.replayAttack ∧
           (deliverProof fixed s m e).state = { s with claims := s.claims.del m.key, supply := s.supply - e.burn } ∧
@@ -305,6 +309,10 @@ theorem deliverProof_cases (fixed : Bool) (s : State) (m : MsgProof) (e : ProofE
             (deliverProof fixed s m e).events =
               [.challengeBurn e.challengeBurn, .minted m.key c e.reward, .deleted (deleteKey fixed m)]))))) := by
   unfold deliverProof
+  cases hd : e.dup with
+  | true => simp
+  | false =>
+  simp only [Bool.false_eq_true, if_false]
   cases hv : e.vb with
   | some c => simp
   | none =>
@@ -372,7 +380,7 @@ theorem step_WF (fixed : Bool) (s : State) (op : Op) (h : WF s.claims) : WF (ste
     · rw [h1]; exact WF_set _ _ _ h
   | proof m e =>
     simp only [step]
-    rcases deliverProof_cases fixed s m e with ⟨h1, _, _⟩ | ⟨c, _, _, _, _, _, _, _, _, hr⟩
+    rcases deliverProof_cases fixed s m e with ⟨h1, _, _⟩ | ⟨c, _, _, _, _, _, _, _, _, _, hr⟩
     · rw [h1]; exact h
     · rcases hr with ⟨_, _, h1, _⟩ | ⟨_, _, _, _, ⟨_, h1, _⟩ | ⟨_, h1, _⟩⟩ <;> rw [h1] <;> exact WF_del _ _ h
 
@@ -396,7 +404,7 @@ theorem step_follow (fixed : Bool) (s : State) (op : Op) (k : ClaimKey) (h : WF 
       by_cases hk : dk = k
       · subst hk; simp [get_del_self]
       · simp [hk, get_del_ne _ hk]
-    rcases deliverProof_cases fixed s m e with ⟨h1, h2, _⟩ | ⟨c, _, _, _, _, _, _, _, _, hr⟩
+    rcases deliverProof_cases fixed s m e with ⟨h1, h2, _⟩ | ⟨c, _, _, _, _, _, _, _, _, _, hr⟩
     · rw [h1, h2]; rfl
     · rcases hr with ⟨_, _, h1, h2⟩ | ⟨_, _, _, _, ⟨_, h1, h2⟩ | ⟨_, h1, h2⟩⟩ <;> rw [h1, h2] <;>
         simp only [replay, List.foldl_cons, List.foldl_nil, Event.apply] <;> exact hdel _
@@ -495,7 +503,7 @@ theorem step_count (fixed : Bool) (s : State) (op : Op) (k : ClaimKey) (hty : fi
       rcases hty with h | h
       · exact Or.inl h
       · exact Or.inr h)
-    rcases deliverProof_cases fixed s m e with ⟨h1, h2, _⟩ | ⟨c, hg, _, _, _, _, _, _, _, hr⟩
+    rcases deliverProof_cases fixed s m e with ⟨h1, h2, _⟩ | ⟨c, hg, _, _, _, _, _, _, _, _, hr⟩
     · rw [h1, h2]; simp [mints, accepts]
     · have hlive : live s.claims m.key = 1 := by simp [live, hg]
       rcases hr with ⟨_, _, h1, h2⟩ | ⟨_, _, _, _, ⟨_, h1, h2⟩ | ⟨_, h1, h2⟩⟩ <;> rw [h1, h2] <;>
@@ -548,7 +556,7 @@ theorem step_total (fixed : Bool) (s : State) (op : Op) (k : ClaimKey) (R : Int)
     rcases deliverClaim_cases s m e with ⟨_, h2, _⟩ | ⟨_, _, h2, _⟩ <;> rw [h2] <;> simp [mintedTotal, mints]
   | proof m e =>
     simp only [step]
-    rcases deliverProof_cases fixed s m e with ⟨_, h2, _⟩ | ⟨c, _, _, _, _, _, _, _, _, hr⟩
+    rcases deliverProof_cases fixed s m e with ⟨_, h2, _⟩ | ⟨c, _, _, _, _, _, _, _, _, _, hr⟩
     · rw [h2]; simp [mintedTotal, mints]
     · rcases hr with ⟨_, _, _, h2⟩ | ⟨_, _, _, _, ⟨_, _, h2⟩ | ⟨_, _, h2⟩⟩ <;> rw [h2] <;>
         simp only [mintedTotal, mints]
@@ -588,13 +596,13 @@ theorem step_minted (fixed : Bool) (s : State) (op : Op) (k : ClaimKey) (c : Cla
     rcases deliverClaim_cases s m e with ⟨_, h2, _⟩ | ⟨_, _, h2, _⟩ <;> rw [h2] at h <;> simp at h
   | proof m e =>
     simp only [step] at h
-    rcases deliverProof_cases fixed s m e with ⟨_, h2, _⟩ | ⟨c', hg, hv, ha, h1, h2', h3, h4, h5, hr⟩
+    rcases deliverProof_cases fixed s m e with ⟨_, h2, _⟩ | ⟨c', hg, hd, hv, ha, h1, h2', h3, h4, h5, hr⟩
     · rw [h2] at h; simp at h
     · rcases hr with ⟨_, _, _, h2⟩ | ⟨hm, h6, hl, _, ⟨_, _, h2⟩ | ⟨_, _, h2⟩⟩ <;> rw [h2] at h <;> simp at h
       all_goals
         obtain ⟨rfl, rfl, rfl⟩ := h
         refine ⟨m, e, rfl, rfl, hg, rfl, ?_⟩
-        simp [proofPayable, hg, hv, ha, h1, h2', h3, h4, h5, hm, h6, hl]
+        simp [proofPayable, hg, hd, hv, ha, h1, h2', h3, h4, h5, hm, h6, hl]
 
 
 /-! ### `ValidateClaim` passes iff every check passes -/
